@@ -53,7 +53,7 @@ _T = "SigModel.Mcu."
 CONFIG = dict(
     modules=["SigModel.Props.C09"],
     theorems=[_T + t for t in [
-        "C09_code_rechecks", "C09_code_release_sites", "C09_code_streams", "C09_code_oldstyle",
+        "C09_code_rechecks", "C09_code_release_sites", "C09_code_streams", "C09_code_janus_cleanup", "C09_code_oldstyle",
         "C09_invariant", "C09_no_orphan", "C09_no_orphan_code", "C09_no_orphan_code_full",
         "C09_late_creation_closed", "C09_single_publisher", "C09_single_publisher_code",
         "C09_race_loser_closed", "C09_doClose_closes", "C09_epoch_monotone", "C09_no_release_between", "C09_release_bumps",
@@ -88,9 +88,11 @@ CONFIG = dict(
         "atomicity is taken at the granularity of the critical sections under ClientSession.mu (and Room.mu for the "
         "in-call set) that the model names; the harness can only schedule whole harness ops (each = a sequence of "
         "model actions run to quiescence), the proof covers every interleaving of the individual actions",
-        "the Janus / proxy wire protocol is not modelled beyond 'Close() closes': what mcu_janus.go leaves behind at "
-        "Janus when a create request times out half-way (room created, join timed out, Detach with the expired "
-        "context) is outside the model; a failed or timed-out creation opens nothing in the model and the fake",
+        "the Janus / proxy wire protocol is not modelled beyond 'Close() closes' and 'a failed or timed-out creation "
+        "opens nothing'; both are observed for the real Janus client against the repository's TestJanusGateway (ops "
+        "janus / janustimeout: publisher + subscriber closed; join never answered) and tied by the facts of "
+        "C09_code_janus_cleanup; a create request (not join) that times out at Janus, and the proxy MCU's "
+        "create-publisher command timing out at the proxy, may still leave objects the signaling server cannot name",
         "entitlement is 'no release (leave room / leave call / close) of the owner since the critical section that "
         "started the request'; the admission check of requestoffer (Hub.isInSameCall) happens before that section "
         "and is C08's subject: the model admits any subscriber request at any time",
@@ -117,11 +119,14 @@ MANIFEST = dict(
          "types, shape of the revocation sweep) and tied by a differential run of real ClientSessions in a real Hub "
          "against a gate-controlled fake Mcu (all orders of <= 4 concurrent threads x media-server outcomes, PRNG "
          "histories); the spec's entitlement predicate is evaluated on the fake media server's open set.",
-    note="Defect found and repaired (fix: d3cd7c0): objects whose creation completed after leave room / leave call / "
-         "close / permission loss were stored and stayed open; the unrepaired model's violation is a proved witness. "
-         "The screen-publisher permission clause depends on C08's early return in the revocation goroutine "
-         "(conditional theorem + proved witness + known finding while it reproduces). Trusted: Lean kernel, extractor, "
-         "harness, testing/synctest, the fake Mcu; Janus/proxy wire protocol not modelled beyond Close().",
+    note="Defects found and repaired: (fix: d3cd7c0) objects whose creation completed after leave room / leave call / "
+         "close / permission loss were stored and stayed open, GetOrCreatePublisher changed the publishers map without "
+         "the lock (data race seen by the race detector on the old tree) - the unrepaired model's violation is a proved "
+         "witness; (fix: 2d93165) mcu_janus.go left the Janus room behind when a publisher's join timed out. The "
+         "screen-publisher permission clause depends on C08's early return in the revocation goroutine (conditional "
+         "theorem + proved witness + known finding while it reproduces). Trusted: Lean kernel, extractor, harness, "
+         "testing/synctest, the fake Mcu; Janus/proxy wire protocol not modelled beyond Close() (two observations "
+         "against the repository's Janus test gateway).",
     technique="Lean 4 proof (inductive invariant of a small-step concurrent model, all interleavings) + regenerated "
               "facts + schedule-controlled differential correspondence",
 )
